@@ -11,8 +11,8 @@ Definition doc_table : list row := [
   mkRow "" "BitEntry" "SetInput" [("const char*", "field")] (Assigns [] [("in_fields[0]", (CallE "strdup" (Param 0)))] (Some (mkCall "gd_alter_entry" [(Member "D->D"); (Fld (Member "E") "field"); (Addr (Member "E")); (Const "0")] "")));
   mkRow "" "BitEntry" "SetFirstBit" [("int", "first_bit")] (Setter "u.bit.bitnum" (Param 0) (mkCall "gd_alter_entry" [(Member "D->D"); (Fld (Member "E") "field"); (Addr (Member "E")); (Const "0")] ""));
   mkRow "" "BitEntry" "SetNumBits" [("int", "num_bits")] (Setter "u.bit.numbits" (Param 0) (mkCall "gd_alter_entry" [(Member "D->D"); (Fld (Member "E") "field"); (Addr (Member "E")); (Const "0")] ""));
-  mkRow "" "BitEntry" "SetFirstBit" [("const char*", "first_bit")] (ScalarSet "" (Const "0") (Param 0) (mkCall "gd_alter_entry" [(Member "D->D"); (Fld (Member "E") "field"); (Addr (Member "E")); (Const "0")] "") (Some (mkCall "gd_get_constant" [(Member "D->D"); (Param 0); (Const "GD_INT16"); (Addr (Fld (Fld (Fld (Member "E") "u") "bit") "bitnum"))] "")) "");
-  (* CORRECTED: same idiom as the string overload of SetFirstBit, scalar 1 *) mkRow "" "BitEntry" "SetNumBits" [("const char*", "num_bits")] (ScalarSet "" (Const "1") (Param 0) (mkCall "gd_alter_entry" [(Member "D->D"); (Fld (Member "E") "field"); (Addr (Member "E")); (Const "0")] "") (Some (mkCall "gd_get_constant" [(Member "D->D"); (Param 0); (Const "GD_INT16"); (Addr (Fld (Fld (Fld (Member "E") "u") "bit") "numbits"))] "")) "");
+  mkRow "" "BitEntry" "SetFirstBit" [("const char*", "first_bit")] (ScalarSet "" (Const "0") (Param 0) (mkCall "gd_alter_entry" [(Member "D->D"); (Fld (Member "E") "field"); (Addr (Member "E")); (Const "0")] "") (Some (mkCall "gd_cxx_get_scalar" [(Member "D->D"); (Param 0); (Const "GD_INT16"); (Addr (Fld (Fld (Fld (Member "E") "u") "bit") "bitnum"))] "")) "");
+  (* CORRECTED: same idiom as the string overload of SetFirstBit, scalar 1 *) mkRow "" "BitEntry" "SetNumBits" [("const char*", "num_bits")] (ScalarSet "" (Const "1") (Param 0) (mkCall "gd_alter_entry" [(Member "D->D"); (Fld (Member "E") "field"); (Addr (Member "E")); (Const "0")] "") (Some (mkCall "gd_cxx_get_scalar" [(Member "D->D"); (Param 0); (Const "GD_INT16"); (Addr (Fld (Fld (Fld (Member "E") "u") "bit") "numbits"))] "")) "");
   mkRow "" "BitEntry" "BitEntry" [("const char*", "field_code"); ("const char*", "in_field"); ("int", "bitnum"); ("int", "numbits"); ("int", "fragment_index")] (Assigns [] [("field", (CallE "strdup" (Param 0))); ("field_type", (Const "GD_BIT_ENTRY")); ("in_fields[0]", (CallE "strdup" (Param 1))); ("u.bit.bitnum", (Param 2)); ("u.bit.numbits", (Param 3)); ("fragment_index", (Param 4))] None);
   mkRow "" "CarrayEntry" "SetType" [("DataType", "type")] (Setter "u.scalar.const_type" (Cast "gd_type_t" (Param 0)) (mkCall "gd_alter_entry" [(Member "D->D"); (Fld (Member "E") "field"); (Addr (Member "E")); (Const "0")] ""));
   mkRow "" "CarrayEntry" "SetArrayLen" [("size_t", "array_len")] (Setter "u.scalar.array_len" (Param 0) (mkCall "gd_alter_entry" [(Member "D->D"); (Fld (Member "E") "field"); (Addr (Member "E")); (Const "0")] ""));
@@ -142,10 +142,10 @@ Definition doc_table : list row := [
   mkRow "" "IndirEntry" "IndirEntry" [("const char*", "field_code"); ("const char*", "in_field1"); ("const char*", "in_field2"); ("int", "fragment_index")] (Assigns [] [("field", (CallE "strdup" (Param 0))); ("field_type", (Const "GD_INDIR_ENTRY")); ("in_fields[0]", (CallE "strdup" (Param 1))); ("in_fields[1]", (CallE "strdup" (Param 2))); ("fragment_index", (Param 3))] None);
   mkRow "" "LincomEntry" "SetInput" [("const char*", "field"); ("int", "index")] (Assigns ["if (index < 0 || index >= GD_MAX_LINCOM) return -1"] [("in_fields[index]", (CallE "strdup" (Param 0)))] (Some (mkCall "gd_alter_entry" [(Member "D->D"); (Fld (Member "E") "field"); (Addr (Member "E")); (Const "0")] "")));
   mkRow "" "LincomEntry" "SetScale" [("double", "scale"); ("int", "index")] (Assigns ["if (index < 0 || index >= GD_MAX_LINCOM) return -1"] [("u.lincom.cm[index][0]", (Param 0)); ("u.lincom.m[index]", (Param 0)); ("u.lincom.cm[index][1]", (Const "0"))] (Some (mkCall "gd_alter_entry" [(Member "D->D"); (Fld (Member "E") "field"); (Addr (Member "E")); (Const "0")] "")));
-  mkRow "" "LincomEntry" "SetScale" [("const char*", "scale"); ("int", "index")] (ScalarSet "if (index < 0 || index >= GD_MAX_LINCOM) return -1;" (Param 1) (Param 0) (mkCall "gd_alter_entry" [(Member "D->D"); (Fld (Member "E") "field"); (Addr (Member "E")); (Const "0")] "") None "r = gd_get_constant(D->D, scale, GD_COMPLEX128, E.u.lincom.cm + index); E.u.lincom.m[index] = E.u.lincom.cm[index][0];");
+  mkRow "" "LincomEntry" "SetScale" [("const char*", "scale"); ("int", "index")] (ScalarSet "if (index < 0 || index >= GD_MAX_LINCOM) return -1;" (Param 1) (Param 0) (mkCall "gd_alter_entry" [(Member "D->D"); (Fld (Member "E") "field"); (Addr (Member "E")); (Const "0")] "") None "r = gd_cxx_get_scalar(D->D, scale, GD_COMPLEX128, E.u.lincom.cm + index); E.u.lincom.m[index] = E.u.lincom.cm[index][0];");
   mkRow "" "LincomEntry" "SetScale" [("std::complex<double>", "scale"); ("int", "index")] (Assigns ["if (index < 0 || index >= GD_MAX_LINCOM) return -1"] [("u.lincom.m[index]", (Raw "scale.real()")); ("u.lincom.cm[index][0]", (Raw "scale.real()")); ("u.lincom.cm[index][1]", (Raw "scale.imag()")); ("flags", (Const "GD_EN_COMPSCAL"))] (Some (mkCall "gd_alter_entry" [(Member "D->D"); (Fld (Member "E") "field"); (Addr (Member "E")); (Const "0")] "")));
   mkRow "" "LincomEntry" "SetOffset" [("double", "offset"); ("int", "index")] (Assigns ["if (index < 0 || index >= GD_MAX_LINCOM) return -1"] [("u.lincom.cb[index][0]", (Param 0)); ("u.lincom.b[index]", (Param 0)); ("u.lincom.cb[index][1]", (Const "0"))] (Some (mkCall "gd_alter_entry" [(Member "D->D"); (Fld (Member "E") "field"); (Addr (Member "E")); (Const "0")] "")));
-  mkRow "" "LincomEntry" "SetOffset" [("const char*", "scale"); ("int", "index")] (ScalarSet "if (index < 0 || index >= GD_MAX_LINCOM) return -1;" (Raw "index + GD_MAX_LINCOM") (Param 0) (mkCall "gd_alter_entry" [(Member "D->D"); (Fld (Member "E") "field"); (Addr (Member "E")); (Const "0")] "") None "r = gd_get_constant(D->D, scale, GD_COMPLEX128, E.u.lincom.cb + index); E.u.lincom.b[index] = E.u.lincom.cb[index][0];");
+  mkRow "" "LincomEntry" "SetOffset" [("const char*", "scale"); ("int", "index")] (ScalarSet "if (index < 0 || index >= GD_MAX_LINCOM) return -1;" (Raw "index + GD_MAX_LINCOM") (Param 0) (mkCall "gd_alter_entry" [(Member "D->D"); (Fld (Member "E") "field"); (Addr (Member "E")); (Const "0")] "") None "r = gd_cxx_get_scalar(D->D, scale, GD_COMPLEX128, E.u.lincom.cb + index); E.u.lincom.b[index] = E.u.lincom.cb[index][0];");
   mkRow "" "LincomEntry" "SetOffset" [("std::complex<double>", "offset"); ("int", "index")] (Assigns ["if (index < 0 || index >= GD_MAX_LINCOM) return -1"] [("u.lincom.b[index]", (Raw "offset.real()")); ("u.lincom.cb[index][0]", (Raw "offset.real()")); ("u.lincom.cb[index][1]", (Raw "offset.imag()")); ("flags", (Const "GD_EN_COMPSCAL"))] (Some (mkCall "gd_alter_entry" [(Member "D->D"); (Fld (Member "E") "field"); (Addr (Member "E")); (Const "0")] "")));
   mkRow "" "LincomEntry" "SetNFields" [("int", "nfields")] (Opaque "int old_n = E.u.lincom.n_fields; if (nfields < 1 || nfields > GD_MAX_LINCOM) return -1; if (nfields > old_n) { int i; for (i = old_n; i < nfields; ++i) { free(E.in_fields[i]); E.in_fields[i] = strdup(""INDEX""); E.u.lincom.m[i] = E.u.lincom.b[i] = 0; } } E.u.lincom.n_fields = nfields; if (D != NULL) return gd_alter_entry(D->D, E.field,&E, 0); return 0;");
   mkRow "" "LincomEntry" "Scalar" [("int", "index")] (Opaque "if (index < 0 || index >= E.u.lincom.n_fields) return NULL; return E.scalar[index];");
@@ -158,18 +158,18 @@ Definition doc_table : list row := [
   mkRow "" "MplexEntry" "SetInput" [("const char*", "field"); ("int", "index")] (Assigns ["if (index < 0 || index > 1) return -1"] [("in_fields[index]", (CallE "strdup" (Param 0)))] (Some (mkCall "gd_alter_entry" [(Member "D->D"); (Fld (Member "E") "field"); (Addr (Member "E")); (Const "0")] "")));
   mkRow "" "MplexEntry" "SetCountVal" [("int", "count_val")] (Opaque "int ret = 0; dtrace(""%u"", count_val); E.u.mplex.count_val = count_val; if (D != NULL) ret = gd_alter_entry(D->D, E.field,&E, 0); dreturn(""%i"", ret); return ret;");
   mkRow "" "MplexEntry" "SetPeriod" [("int", "period")] (Opaque "int ret = 0; dtrace(""%u"", period); E.u.mplex.period = period; if (D != NULL) ret = gd_alter_entry(D->D, E.field,&E, 0); dreturn(""%i"", ret); return ret;");
-  mkRow "" "MplexEntry" "SetCountVal" [("const char*", "count_val")] (Opaque "int r = 0; dtrace(""\""%s\"""", count_val); SetScalar(0, count_val); if (D != NULL) { r = gd_alter_entry(D->D, E.field,&E, 0); if (!r) r = gd_get_constant(D->D, count_val, GD_UINT16,&E.u.mplex.count_val); } dreturn(""%i"", r); return r;");
-  mkRow "" "MplexEntry" "SetPeriod" [("const char*", "period")] (Opaque "int r = 0; dtrace(""\""%s\"""", period); SetScalar(1, period); if (D != NULL) { r = gd_alter_entry(D->D, E.field,&E, 0); if (!r) r = gd_get_constant(D->D, period, GD_UINT16,&E.u.mplex.period); } dreturn(""%i"", r); return r;");
+  mkRow "" "MplexEntry" "SetCountVal" [("const char*", "count_val")] (Opaque "int r = 0; dtrace(""\""%s\"""", count_val); SetScalar(0, count_val); if (D != NULL) { r = gd_alter_entry(D->D, E.field,&E, 0); if (!r) r = gd_cxx_get_scalar(D->D, count_val, GD_UINT16,&E.u.mplex.count_val); } dreturn(""%i"", r); return r;");
+  mkRow "" "MplexEntry" "SetPeriod" [("const char*", "period")] (Opaque "int r = 0; dtrace(""\""%s\"""", period); SetScalar(1, period); if (D != NULL) { r = gd_alter_entry(D->D, E.field,&E, 0); if (!r) r = gd_cxx_get_scalar(D->D, period, GD_UINT16,&E.u.mplex.period); } dreturn(""%i"", r); return r;");
   mkRow "" "MplexEntry" "MplexEntry" [("const char*", "field_code"); ("const char*", "in_field"); ("const char*", "count"); ("int", "count_val"); ("int", "period"); ("int", "fragment_index")] (Opaque ": Entry() dtrace(""\""%s\"", \""%s\"", \""%s\"", %i, %i, %i"", field_code, in_field, count, count_val, period, fragment_index); E.field = strdup(field_code); E.field_type = GD_MPLEX_ENTRY; E.in_fields[0] = strdup(in_field); E.in_fields[1] = strdup(count); E.scalar[0] = E.scalar[1] = 0; E.u.mplex.count_val = count_val; E.u.mplex.period = period; E.fragment_index = fragment_index; dreturnvoid();");
   mkRow "" "MultiplyEntry" "SetInput" [("const char*", "field"); ("int", "index")] (Assigns ["if (index < 0 || index > 1) return -1"] [("in_fields[index]", (CallE "strdup" (Param 0)))] (Some (mkCall "gd_alter_entry" [(Member "D->D"); (Fld (Member "E") "field"); (Addr (Member "E")); (Const "0")] "")));
   mkRow "" "MultiplyEntry" "MultiplyEntry" [("const char*", "field_code"); ("const char*", "in_field1"); ("const char*", "in_field2"); ("int", "fragment_index")] (Assigns [] [("field", (CallE "strdup" (Param 0))); ("field_type", (Const "GD_MULTIPLY_ENTRY")); ("in_fields[0]", (CallE "strdup" (Param 1))); ("in_fields[1]", (CallE "strdup" (Param 2))); ("fragment_index", (Param 3))] None);
   mkRow "" "PhaseEntry" "SetInput" [("const char*", "field")] (Assigns [] [("in_fields[0]", (CallE "strdup" (Param 0)))] (Some (mkCall "gd_alter_entry" [(Member "D->D"); (Fld (Member "E") "field"); (Addr (Member "E")); (Const "0")] "")));
   mkRow "" "PhaseEntry" "SetShift" [("gd_int64_t", "shift")] (Setter "u.phase.shift" (Param 0) (mkCall "gd_alter_entry" [(Member "D->D"); (Fld (Member "E") "field"); (Addr (Member "E")); (Const "0")] ""));
-  mkRow "" "PhaseEntry" "SetShift" [("const char*", "shift")] (ScalarSet "" (Const "0") (Param 0) (mkCall "gd_alter_entry" [(Member "D->D"); (Fld (Member "E") "field"); (Addr (Member "E")); (Const "0")] "") (Some (mkCall "gd_get_constant" [(Member "D->D"); (Param 0); (Const "GD_INT64"); (Addr (Fld (Fld (Fld (Member "E") "u") "phase") "shift"))] "")) "");
+  mkRow "" "PhaseEntry" "SetShift" [("const char*", "shift")] (ScalarSet "" (Const "0") (Param 0) (mkCall "gd_alter_entry" [(Member "D->D"); (Fld (Member "E") "field"); (Addr (Member "E")); (Const "0")] "") (Some (mkCall "gd_cxx_get_scalar" [(Member "D->D"); (Param 0); (Const "GD_INT64"); (Addr (Fld (Fld (Fld (Member "E") "u") "phase") "shift"))] "")) "");
   mkRow "" "PhaseEntry" "PhaseEntry" [("const char*", "field_code"); ("const char*", "in_field"); ("gd_int64_t", "shift"); ("int", "fragment_index")] (Assigns [] [("field", (CallE "strdup" (Param 0))); ("field_type", (Const "GD_PHASE_ENTRY")); ("in_fields[0]", (CallE "strdup" (Param 1))); ("u.phase.shift", (Param 2)); ("fragment_index", (Param 3))] None);
   mkRow "" "PolynomEntry" "SetInput" [("const char*", "field")] (Assigns [] [("in_fields[0]", (CallE "strdup" (Param 0)))] (Some (mkCall "gd_alter_entry" [(Member "D->D"); (Fld (Member "E") "field"); (Addr (Member "E")); (Const "0")] "")));
   mkRow "" "PolynomEntry" "SetCoefficient" [("double", "coeff"); ("int", "index")] (Assigns ["if (index < 0 || index > GD_MAX_POLYORD) return -1"] [("u.polynom.ca[index][0]", (Param 0)); ("u.polynom.a[index]", (Param 0)); ("u.polynom.ca[index][1]", (Const "0"))] (Some (mkCall "gd_alter_entry" [(Member "D->D"); (Fld (Member "E") "field"); (Addr (Member "E")); (Const "0")] "")));
-  mkRow "" "PolynomEntry" "SetCoefficient" [("const char*", "scale"); ("int", "index")] (ScalarSet "if (index < 0 || index > GD_MAX_POLYORD) return -1;" (Param 1) (Param 0) (mkCall "gd_alter_entry" [(Member "D->D"); (Fld (Member "E") "field"); (Addr (Member "E")); (Const "0")] "") None "r = gd_get_constant(D->D, scale, GD_COMPLEX128, E.u.polynom.ca + index); E.u.polynom.a[index] = E.u.polynom.ca[index][0];");
+  mkRow "" "PolynomEntry" "SetCoefficient" [("const char*", "scale"); ("int", "index")] (ScalarSet "if (index < 0 || index > GD_MAX_POLYORD) return -1;" (Param 1) (Param 0) (mkCall "gd_alter_entry" [(Member "D->D"); (Fld (Member "E") "field"); (Addr (Member "E")); (Const "0")] "") None "r = gd_cxx_get_scalar(D->D, scale, GD_COMPLEX128, E.u.polynom.ca + index); E.u.polynom.a[index] = E.u.polynom.ca[index][0];");
   mkRow "" "PolynomEntry" "SetCoefficient" [("std::complex<double>", "coeff"); ("int", "index")] (Assigns ["if (index < 0 || index > GD_MAX_POLYORD) return -1"] [("u.polynom.a[index]", (Raw "coeff.real()")); ("u.polynom.ca[index][0]", (Raw "coeff.real()")); ("u.polynom.ca[index][1]", (Raw "coeff.imag()")); ("flags", (Const "GD_EN_COMPSCAL"))] (Some (mkCall "gd_alter_entry" [(Member "D->D"); (Fld (Member "E") "field"); (Addr (Member "E")); (Const "0")] "")));
   mkRow "" "PolynomEntry" "SetPolyOrd" [("int", "poly_ord")] (Opaque "int old_n = E.u.polynom.poly_ord; if (poly_ord < 2 || poly_ord > GD_MAX_POLYORD) return -1; if (poly_ord > old_n) { int i; for (i = old_n + 1; i <= poly_ord; ++i) E.u.polynom.a[i] = 0; } E.u.polynom.poly_ord = poly_ord; if (D != NULL) return gd_alter_entry(D->D, E.field,&E, 0); return 0;");
   mkRow "" "PolynomEntry" "Scalar" [("int", "index")] (Opaque "if (index < 0 || index > E.u.polynom.poly_ord) return NULL; return E.scalar[index];");
@@ -177,14 +177,14 @@ Definition doc_table : list row := [
   mkRow "" "PolynomEntry" "PolynomEntry" [("const char*", "field_code"); ("int", "poly_ord"); ("const char*", "in_field"); ("double*", "a"); ("int", "fragment_index")] (Opaque ": Entry() int i; E.field = strdup(field_code); E.field_type = GD_POLYNOM_ENTRY; E.u.polynom.poly_ord = poly_ord; E.fragment_index = fragment_index; E.flags = 0; E.in_fields[0] = strdup(in_field); for (i = 0; i <= poly_ord; ++i) E.u.polynom.a[i] = a[i];");
   mkRow "" "PolynomEntry" "PolynomEntry" [("const char*", "field_code"); ("int", "poly_ord"); ("const char*", "in_field"); ("std::complex<double>*", "ca"); ("int", "fragment_index")] (Opaque ": Entry() int i; E.field = strdup(field_code); E.field_type = GD_POLYNOM_ENTRY; E.u.polynom.poly_ord = poly_ord; E.fragment_index = fragment_index; E.flags = GD_EN_COMPSCAL; E.in_fields[0] = strdup(in_field); for (i = 0; i <= poly_ord; ++i) { E.u.polynom.ca[i][0] = ca[i].real(); E.u.polynom.ca[i][1] = ca[i].imag(); }");
   mkRow "" "RawEntry" "SetSamplesPerFrame" [("unsigned int", "spf"); ("int", "recode")] (Setter "u.raw.spf" (Param 0) (mkCall "gd_alter_entry" [(Member "D->D"); (Fld (Member "E") "field"); (Addr (Member "E")); (Param 1)] ""));
-  mkRow "" "RawEntry" "SetSamplesPerFrame" [("const char*", "spf"); ("int", "recode")] (ScalarSet "" (Const "0") (Param 0) (mkCall "gd_alter_entry" [(Member "D->D"); (Fld (Member "E") "field"); (Addr (Member "E")); (Param 1)] "") (Some (mkCall "gd_get_constant" [(Member "D->D"); (Param 0); (Const "GD_UINT16"); (Addr (Fld (Fld (Fld (Member "E") "u") "raw") "spf"))] "")) "");
+  mkRow "" "RawEntry" "SetSamplesPerFrame" [("const char*", "spf"); ("int", "recode")] (ScalarSet "" (Const "0") (Param 0) (mkCall "gd_alter_entry" [(Member "D->D"); (Fld (Member "E") "field"); (Addr (Member "E")); (Param 1)] "") (Some (mkCall "gd_cxx_get_scalar" [(Member "D->D"); (Param 0); (Const "GD_UINT16"); (Addr (Fld (Fld (Fld (Member "E") "u") "raw") "spf"))] "")) "");
   mkRow "" "RawEntry" "SetType" [("DataType", "type"); ("int", "recode")] (Setter "u.raw.data_type" (Cast "gd_type_t" (Param 0)) (mkCall "gd_alter_entry" [(Member "D->D"); (Fld (Member "E") "field"); (Addr (Member "E")); (Param 1)] ""));
   mkRow "" "RawEntry" "FileName" [] (Opaque "free(filename); filename = gd_raw_filename(D->D, E.field); return filename;");
   mkRow "" "RawEntry" "RawEntry" [("const char*", "field_code"); ("DataType", "data_type"); ("unsigned int", "spf"); ("int", "fragment_index")] (Assigns [] [("field", (CallE "strdup" (Param 0))); ("field_type", (Const "GD_RAW_ENTRY")); ("u.raw.spf", (Param 2)); ("u.raw.data_type", (Cast "gd_type_t" (Param 1))); ("fragment_index", (Param 3))] None);
   mkRow "" "RawEntry" "~RawEntry" [] (Opaque "free(filename);");
   mkRow "" "RecipEntry" "SetInput" [("const char*", "field")] (Assigns [] [("in_fields[0]", (CallE "strdup" (Param 0)))] (Some (mkCall "gd_alter_entry" [(Member "D->D"); (Fld (Member "E") "field"); (Addr (Member "E")); (Const "0")] "")));
   mkRow "" "RecipEntry" "SetDividend" [("double", "dividend")] (Assigns [] [("u.recip.cdividend[0]", (Param 0)); ("u.recip.dividend", (Param 0)); ("u.recip.cdividend[1]", (Const "0"))] (Some (mkCall "gd_alter_entry" [(Member "D->D"); (Fld (Member "E") "field"); (Addr (Member "E")); (Const "0")] "")));
-  mkRow "" "RecipEntry" "SetDividend" [("const char*", "scale")] (ScalarSet "" (Const "0") (Param 0) (mkCall "gd_alter_entry" [(Member "D->D"); (Fld (Member "E") "field"); (Addr (Member "E")); (Const "0")] "") None "r = gd_get_constant(D->D, scale, GD_COMPLEX128,&E.u.recip.cdividend); E.u.recip.dividend = E.u.recip.cdividend[0];");
+  mkRow "" "RecipEntry" "SetDividend" [("const char*", "scale")] (ScalarSet "" (Const "0") (Param 0) (mkCall "gd_alter_entry" [(Member "D->D"); (Fld (Member "E") "field"); (Addr (Member "E")); (Const "0")] "") None "r = gd_cxx_get_scalar(D->D, scale, GD_COMPLEX128,&E.u.recip.cdividend); E.u.recip.dividend = E.u.recip.cdividend[0];");
   mkRow "" "RecipEntry" "SetDividend" [("std::complex<double>", "dividend")] (Assigns [] [("u.recip.dividend", (Raw "dividend.real()")); ("u.recip.cdividend[0]", (Raw "dividend.real()")); ("u.recip.cdividend[1]", (Raw "dividend.imag()")); ("flags", (Const "GD_EN_COMPSCAL"))] (Some (mkCall "gd_alter_entry" [(Member "D->D"); (Fld (Member "E") "field"); (Addr (Member "E")); (Const "0")] "")));
   mkRow "" "RecipEntry" "RecipEntry" [("const char*", "field_code"); ("const char*", "in_field1"); ("double", "dividend"); ("int", "fragment_index")] (Assigns [] [("field", (CallE "strdup" (Param 0))); ("field_type", (Const "GD_RECIP_ENTRY")); ("in_fields[0]", (CallE "strdup" (Param 1))); ("scalar[0]", (Const "0")); ("u.recip.cdividend[0]", (Param 2)); ("u.recip.dividend", (Param 2)); ("u.recip.cdividend[1]", (Const "0")); ("flags", (Const "0")); ("fragment_index", (Param 3))] None);
   mkRow "" "RecipEntry" "RecipEntry" [("const char*", "field_code"); ("const char*", "in_field1"); ("std::complex<double>", "dividend"); ("int", "fragment_index")] (Assigns [] [("field", (CallE "strdup" (Param 0))); ("field_type", (Const "GD_RECIP_ENTRY")); ("in_fields[0]", (CallE "strdup" (Param 1))); ("scalar[0]", (Const "0")); ("u.recip.cdividend[0]", (Raw "dividend.real()")); ("u.recip.dividend", (Raw "dividend.real()")); ("u.recip.cdividend[1]", (Raw "dividend.imag()")); ("flags", (Const "GD_EN_COMPSCAL")); ("fragment_index", (Param 3))] None);
@@ -193,8 +193,8 @@ Definition doc_table : list row := [
   mkRow "" "SBitEntry" "SetInput" [("const char*", "field")] (Assigns [] [("in_fields[0]", (CallE "strdup" (Param 0)))] (Some (mkCall "gd_alter_entry" [(Member "D->D"); (Fld (Member "E") "field"); (Addr (Member "E")); (Const "0")] "")));
   mkRow "" "SBitEntry" "SetFirstBit" [("int", "first_bit")] (Setter "u.bit.bitnum" (Param 0) (mkCall "gd_alter_entry" [(Member "D->D"); (Fld (Member "E") "field"); (Addr (Member "E")); (Const "0")] ""));
   mkRow "" "SBitEntry" "SetNumBits" [("int", "num_bits")] (Setter "u.bit.numbits" (Param 0) (mkCall "gd_alter_entry" [(Member "D->D"); (Fld (Member "E") "field"); (Addr (Member "E")); (Const "0")] ""));
-  mkRow "" "SBitEntry" "SetFirstBit" [("const char*", "first_bit")] (ScalarSet "" (Const "0") (Param 0) (mkCall "gd_alter_entry" [(Member "D->D"); (Fld (Member "E") "field"); (Addr (Member "E")); (Const "0")] "") (Some (mkCall "gd_get_constant" [(Member "D->D"); (Param 0); (Const "GD_INT16"); (Addr (Fld (Fld (Fld (Member "E") "u") "bit") "bitnum"))] "")) "");
-  mkRow "" "SBitEntry" "SetNumBits" [("const char*", "num_bits")] (ScalarSet "" (Const "1") (Param 0) (mkCall "gd_alter_entry" [(Member "D->D"); (Fld (Member "E") "field"); (Addr (Member "E")); (Const "0")] "") (Some (mkCall "gd_get_constant" [(Member "D->D"); (Param 0); (Const "GD_INT16"); (Addr (Fld (Fld (Fld (Member "E") "u") "bit") "numbits"))] "")) "");
+  mkRow "" "SBitEntry" "SetFirstBit" [("const char*", "first_bit")] (ScalarSet "" (Const "0") (Param 0) (mkCall "gd_alter_entry" [(Member "D->D"); (Fld (Member "E") "field"); (Addr (Member "E")); (Const "0")] "") (Some (mkCall "gd_cxx_get_scalar" [(Member "D->D"); (Param 0); (Const "GD_INT16"); (Addr (Fld (Fld (Fld (Member "E") "u") "bit") "bitnum"))] "")) "");
+  mkRow "" "SBitEntry" "SetNumBits" [("const char*", "num_bits")] (ScalarSet "" (Const "1") (Param 0) (mkCall "gd_alter_entry" [(Member "D->D"); (Fld (Member "E") "field"); (Addr (Member "E")); (Const "0")] "") (Some (mkCall "gd_cxx_get_scalar" [(Member "D->D"); (Param 0); (Const "GD_INT16"); (Addr (Fld (Fld (Fld (Member "E") "u") "bit") "numbits"))] "")) "");
   (* CORRECTED: the documented SBitEntry constructor creates an SBIT entry *) mkRow "" "SBitEntry" "SBitEntry" [("const char*", "field_code"); ("const char*", "in_field"); ("int", "bitnum"); ("int", "numbits"); ("int", "fragment_index")] (Assigns [] [("field", (CallE "strdup" (Param 0))); ("field_type", (Const "GD_SBIT_ENTRY")); ("in_fields[0]", (CallE "strdup" (Param 1))); ("u.bit.bitnum", (Param 2)); ("u.bit.numbits", (Param 3)); ("fragment_index", (Param 4))] None);
   mkRow "" "SindirEntry" "SetInput" [("const char*", "field"); ("int", "index")] (Assigns ["if (index < 0 || index > 1) return -1"] [("in_fields[index]", (CallE "strdup" (Param 0)))] (Some (mkCall "gd_alter_entry" [(Member "D->D"); (Fld (Member "E") "field"); (Addr (Member "E")); (Const "0")] "")));
   mkRow "" "SindirEntry" "SindirEntry" [("const char*", "field_code"); ("const char*", "in_field1"); ("const char*", "in_field2"); ("int", "fragment_index")] (Assigns [] [("field", (CallE "strdup" (Param 0))); ("field_type", (Const "GD_SINDIR_ENTRY")); ("in_fields[0]", (CallE "strdup" (Param 1))); ("in_fields[1]", (CallE "strdup" (Param 2))); ("fragment_index", (Param 3))] None);
@@ -202,8 +202,10 @@ Definition doc_table : list row := [
   mkRow "" "WindowEntry" "SetInput" [("const char*", "field"); ("int", "index")] (Assigns ["if (index < 0 || index > 1) return -1"] [("in_fields[index]", (CallE "strdup" (Param 0)))] (Some (mkCall "gd_alter_entry" [(Member "D->D"); (Fld (Member "E") "field"); (Addr (Member "E")); (Const "0")] "")));
   mkRow "" "WindowEntry" "SetWindOp" [("WindOpType", "windop")] (Opaque "int ret = 0; dtrace(""0x%X"", (unsigned)windop); E.u.window.windop = (gd_windop_t)windop; if (D != NULL) ret = gd_alter_entry(D->D, E.field,&E, 0); dreturn(""%i"", ret); return ret;");
   mkRow "" "WindowEntry" "SetThreshold" [("gd_triplet_t", "threshold")] (Opaque "int ret = 0; dtrace(""{%g,%"" PRIX64 "",%"" PRId64 ""}"", threshold.r, threshold.u, threshold.i); E.u.window.threshold = threshold; if (D != NULL) ret = gd_alter_entry(D->D, E.field,&E, 0); dreturn(""%i"", ret); return ret;");
-  mkRow "" "WindowEntry" "SetThreshold" [("const char*", "threshold")] (Opaque "int r = 0; dtrace(""\""%s\"""", threshold); SetScalar(0, threshold); if (D != NULL) { r = gd_alter_entry(D->D, E.field,&E, 0); if (!r) { switch(E.u.window.windop) { case GD_WINDOP_EQ: case GD_WINDOP_NE: r = gd_get_constant(D->D, threshold, GD_INT64,&E.u.window.threshold.i); break; case GD_WINDOP_SET: case GD_WINDOP_CLR: r = gd_get_constant(D->D, threshold, GD_UINT64,&E.u.window.threshold.u); break; default: r = gd_get_constant(D->D, threshold, GD_FLOAT64,&E.u.window.threshold.r); break; } } } dreturn(""%i"", r); return r;");
-  mkRow "" "WindowEntry" "WindowEntry" [("const char*", "field_code"); ("const char*", "in_field"); ("const char*", "check"); ("WindOpType", "windop"); ("gd_triplet_t", "threshold"); ("int", "fragment_index")] (Opaque ": Entry() dtrace(""\""%s\"", \""%s\"", \""%s\"", %i, {%g,%"" PRIX64 "",%"" PRId64 ""}, %i"", field_code, in_field, check, (unsigned)windop, threshold.r, threshold.u, threshold.i, fragment_index); E.field = strdup(field_code); E.field_type = GD_WINDOW_ENTRY; E.in_fields[0] = strdup(in_field); E.in_fields[1] = strdup(check); E.scalar[0] = 0; E.u.window.windop = (gd_windop_t)windop; E.u.window.threshold = threshold; E.fragment_index = fragment_index; dreturnvoid();")
+  mkRow "" "WindowEntry" "SetThreshold" [("const char*", "threshold")] (Opaque "int r = 0; dtrace(""\""%s\"""", threshold); SetScalar(0, threshold); if (D != NULL) { r = gd_alter_entry(D->D, E.field,&E, 0); if (!r) { switch(E.u.window.windop) { case GD_WINDOP_EQ: case GD_WINDOP_NE: r = gd_cxx_get_scalar(D->D, threshold, GD_INT64,&E.u.window.threshold.i); break; case GD_WINDOP_SET: case GD_WINDOP_CLR: r = gd_cxx_get_scalar(D->D, threshold, GD_UINT64,&E.u.window.threshold.u); break; default: r = gd_cxx_get_scalar(D->D, threshold, GD_FLOAT64,&E.u.window.threshold.r); break; } } } dreturn(""%i"", r); return r;");
+  mkRow "" "WindowEntry" "WindowEntry" [("const char*", "field_code"); ("const char*", "in_field"); ("const char*", "check"); ("WindOpType", "windop"); ("gd_triplet_t", "threshold"); ("int", "fragment_index")] (Opaque ": Entry() dtrace(""\""%s\"", \""%s\"", \""%s\"", %i, {%g,%"" PRIX64 "",%"" PRId64 ""}, %i"", field_code, in_field, check, (unsigned)windop, threshold.r, threshold.u, threshold.i, fragment_index); E.field = strdup(field_code); E.field_type = GD_WINDOW_ENTRY; E.in_fields[0] = strdup(in_field); E.in_fields[1] = strdup(check); E.scalar[0] = 0; E.u.window.windop = (gd_windop_t)windop; E.u.window.threshold = threshold; E.fragment_index = fragment_index; dreturnvoid();");
+  (* the read-back helper of bindings/cxx/internal.h (fix C20-4): CONST code, or CARRAY element code<i> *)
+  mkRow "" "(helper)" "gd_cxx_get_scalar" [("DIRFILE*", "D"); ("const char*", "code"); ("gd_type_t", "type"); ("void*", "data")] (Opaque "const char*ptr = strchr(code, '<'); char*name; int r; if (ptr == NULL) return gd_get_constant(D, code, type, data); name = strdup(code); if (name == NULL) return gd_get_constant(D, code, type, data); name[ptr - code] = '\0'; r = gd_get_carray_slice(D, name, (unsigned int)atoi(ptr + 1), 1, type, data); free(name); return r;")
 ].
 
 Definition doc_hdr : list row := [
